@@ -264,6 +264,7 @@ V_ENSURES(__CPROVER_return_value < 0 || (zck->comp.type == ZCK_COMP_ZSTD && src_
 V_ENSURES(__CPROVER_return_value < 0 || zck->comp.type != ZCK_COMP_ZSTD || src_size == 0 || (zck->comp.dc_data != NULL && __CPROVER_is_fresh(zck->comp.dc_data, zck->comp.dc_data_size))) /*@C01,C03.comp_write.chunk_buffer_holds_dc_data_size_bytes*/
 V_ENSURES(__CPROVER_return_value < 0 || zck->work_index_item == V_OLD(zck->work_index_item) || (V_OLD(zck->work_index_item) == NULL && zck->work_index_item != NULL && __CPROVER_is_fresh(zck->work_index_item, sizeof(zckChunk)))) /*@C01,C03.comp_write.entry_under_construction_kept_or_created*/
 V_ENSURES(__CPROVER_return_value <= 0 || zck->work_index_item != NULL) /*@C01.comp_write.bytes_taken_have_an_entry_under_construction*/
+V_ENSURES(__CPROVER_return_value < 0 || src_size != 0 || zck->work_index_item == V_OLD(zck->work_index_item)) /*@C01.comp_write.empty_write_creates_no_entry*/
 V_ENSURES_NODES(__CPROVER_return_value <= 0 || (zck->work_index_item != NULL && WI_NOW(zck)->length == WI_OLD_LEN(zck) + src_size)) /*@C01.comp_write.indexes_exactly_src_size_source_bytes*/
 V_ENSURES_NODES(__CPROVER_return_value <= 0 || zck->no_write != 0 || g_wr_bytes[G_IX(zck->temp_fd)] - V_OLD(g_wr_bytes[G_IX(zck->temp_fd)]) == WI_NOW(zck)->comp_length - WI_OLD_CLEN(zck)) /*@C01,C12.comp_write.writes_exactly_the_bytes_it_indexes*/
 V_ENSURES_NODES(__CPROVER_return_value < 0 || zck->no_write == 0 || g_wr_bytes[G_IX(zck->temp_fd)] == V_OLD(g_wr_bytes[G_IX(zck->temp_fd)])) /*@C01.comp_write.no_write_writes_nothing*/
